@@ -211,12 +211,21 @@ def chunk_unmerged(chunk, acc):
     for rest in sequences(UNMERGED_OPS, depth - 1):
         hist = (first,) + rest
         xf, ref = make(plain, nonce, 3)
+        xf2, ref2 = make(plain[::-1], NONCES[1], 0)  # a second, unrelated view that is read in between
         acc.states += 1
         obs = []
+        held = []
         for i, op in enumerate(hist):
             if ref_would_go_negative(ref, op):
                 break
             acc.transitions += 1
+            if op[0] == "read":
+                pos = ref.tell()
+                data = xf.read(*op[1:])
+                held.append((data, bytes(data).hex(), i))
+                xf.seek(pos)  # step_compare below performs the read again and does the comparison
+                xf2.seek(0)
+                xf2.read(5)
             mis, got, _ = step_compare(xf, ref, op)
             obs.append(got)
             if mis:
@@ -227,6 +236,10 @@ def chunk_unmerged(chunk, acc):
                     mis[1],
                     note=mis[0] + " (unmerged pass)",
                 )
+                break
+        for data, was, i in held:
+            if bytes(data).hex() != was or not isinstance(data, bytes):
+                acc.fail("C09/read/result-changed-after-later-reads", {"kind": "hist", "plain": plain.hex(), "nonce": nonce.hex(), "nonce_offset": 3, "history": [list(h) for h in hist], "held_read": i}, {"type": "bytes", "data": was}, {"type": type(data).__name__, "data": bytes(data).hex()}, note="a result handed out earlier changed (or is not an immutable bytes object)")
                 break
         acc.case(hist, nontrivial=True, outcome=tuple(obs))
     acc.sample({"plaintext_len": n, "history": [list(first)] + [list(o) for o in UNMERGED_OPS[:2]], "note": "every history up to the depth bound starting with this op"})
@@ -291,6 +304,11 @@ def chunk_detect(chunk, acc):
     stubs = [bytes(w) for w in sequences(STUB_ALPHA, b["stub_len"])]
     long_stubs = [b"\x90" * k for k in (1017, 1018, 1019, 1020, 1021)]  # +3 marker bytes => nonce offset 1020..1024
     mine = [s for i, s in enumerate(stubs + long_stubs) if i % b["buckets"] == chunk["bucket"]]
+    if chunk["bucket"] == 1 % b["buckets"]:
+        # the size field alone, with the nonce at the last offsets of the documented 1024-byte search range
+        for n in (1000, 1016, 1019, 1020, 1021, 1022, 1023):
+            acc.states += 1
+            detect_case(acc, image, b"\x90" * n, False, True, b"", NONCES[2], meta)
     if chunk["bucket"] == 0:
         # stubs that end in a longer run of ff bytes (the marker occurs at overlapping positions): with a consistent
         # size field the true offset is supported by two indications and must win
